@@ -3,6 +3,7 @@
 from __future__ import annotations
 
 import ast
+import re
 
 import z3
 
@@ -155,6 +156,18 @@ class Stmts:
     def s_AnnAssign(self, s, st):
         if s.value is None:
             return [Out("normal", st)]
+        ann = ast.unparse(s.annotation).replace(" ", "")
+        m = re.match(r"^dict\[(\w+),(set|list|dict)\[.*\]\]$", ann)
+        if m and isinstance(s.value, ast.Dict) and not s.value.keys and isinstance(s.target, ast.Name):
+            # `x: dict[K, set[V]] = {}`: the annotation types the values as containers (so that x[k].add(...) / iteration / truthiness are modelled)
+            outs = []
+            for o in self._assign([s.target], s.value, st):
+                if o.kind == "normal":
+                    v = o.st.env.get(s.target.id)
+                    if isinstance(v, VRef) and v.kinds and v.kinds[0] == "dict":
+                        o.st.env[s.target.id] = VRef(v.z, v.cls, ("dict", "ref", "ref", m.group(2)))
+                outs.append(o)
+            return outs
         return self._assign([s.target], s.value, st)
 
     def s_Assign(self, s, st):
@@ -180,6 +193,27 @@ class Stmts:
         if isinstance(t, ast.Name):
             st.env[t.id] = val
             return [Out("normal", st)]
+        if isinstance(t, (ast.Tuple, ast.List)) and isinstance(val, VSeq) and sum(isinstance(x, ast.Starred) for x in t.elts) == 1 \
+                and isinstance(t.elts[-1], ast.Starred):
+            # `a, b, *rest = seq` on a sequence of symbolic length: ValueError if too short, else the leading elements and the remaining sequence (a list)
+            lead = len(t.elts) - 1
+            outs = []
+            for enough, bs in self.split(st, val.n >= lead):
+                if not enough:
+                    outs.append(Out("raise", bs, "ValueError"))
+                    continue
+                cur = [bs]
+                for i, te in enumerate(t.elts[:-1]):
+                    nxt = []
+                    for c in cur:
+                        for o in self.assign_target(te, self._elem(z3.Select(val.arr, i), val.ek, val.ecls, c), c):
+                            (nxt if o.kind == "normal" else outs).append(o.st if o.kind == "normal" else o)
+                    cur = nxt
+                j = z3.Int("star!j")
+                rest = VSeq(z3.Lambda([j], z3.Select(val.arr, j + lead)), z3.simplify(val.n - lead), val.ek, val.ecls)
+                for c in cur:
+                    outs += self.assign_target(t.elts[-1].value, rest, c)
+            return outs
         if isinstance(t, (ast.Tuple, ast.List)):
             if isinstance(val, VSeq):
                 n = z3.simplify(val.n)
